@@ -198,7 +198,7 @@ static void cb_close(void *data) {
 	if (%(p)spacket_buf(CTX) != cur_buf || %(p)spacket_buf_addr(CTX) != cur_buf) oprintf("bufaddr-mismatch\n");
 	oprintf("dl ");
 	for (j = 0; j < cur_size; j++) oprintf("%%02x", cur_buf[j]);
-	oprintf(" o=%%d\n", wasopen);
+	oprintf(" o=%%d n=%%d\n", wasopen, %(p)spacket_is_open(CTX));
 	for (i = 0; i < nsetbufs; i++) if (setbufs[i][0] == k) { uint8_t *b = alloc_buf(setbufs[i][1]); %(p)spacket_set_buf(CTX, b, (uint32_t) setbufs[i][1]); break; }
 	oprintf("cx close f=%%d\n", %(p)sis_in_tracing_section(CTX));
 }
@@ -231,6 +231,7 @@ static void run_history(char **lines, unsigned nl) {
 		case 'C': cb_close(NULL); ret("close"); break;
 		case 'E': lp = l + 1; %(p)senable_tracing(CTX, (int) next_num()); ret("enable"); break;
 		case 'Q': ret("query"); break;
+		case 'Z': if (%(p)spacket_is_open(CTX) && !%(p)spacket_is_empty(CTX)) cb_close(NULL); ret("fin"); break;
 		case 'R': lp = l + 1; n = (unsigned) next_num(); call_trace(n); ret("trace"); break;
 		default: break;
 		}
@@ -381,6 +382,8 @@ def script_text(ir, dst_name, h):
             out.append(f'E {c[1]}')
         elif c[0] == 'query':
             out.append('Q')
+        elif c[0] == 'fin':
+            out.append('Z')
         elif c[0] == 'trace':
             e = d['erts'][ert_idx[c[1]]]
             out.append(f'R {ert_idx[c[1]]} ' + args_line(trace_params(d, e), c[2]))
